@@ -541,22 +541,22 @@ impl Writer {
   // Receive new data samples from the DDS DataWriter
   pub fn process_writer_command(&mut self) {
     while let Ok(cc) = self.writer_command_receiver.try_recv() {
+      // Signal that there is now space in the DataWriter to Writer queue
+      {
+        self
+          .writer_command_receiver_waker
+          .lock()
+          .unwrap()
+          .as_ref()
+          .map(|w| w.wake_by_ref());
+      }
+
       match cc {
         WriterCommand::DDSData {
           ddsdata: dds_data,
           write_options,
           sequence_number,
         } => {
-          // Signal that there is now space in the DataWriter to Writer queue
-          {
-            self
-              .writer_command_receiver_waker
-              .lock()
-              .unwrap()
-              .as_ref()
-              .map(|w| w.wake_by_ref());
-          }
-
           // Insert data to local HistoryBuffer
           let timestamp =
             self.insert_to_history_buffer(dds_data, write_options.clone(), sequence_number);
